@@ -119,7 +119,11 @@ def parse_date_delta(value):
     except ValueError:
         return parse_date(value)
     else:
-        return _now() + timedelta(seconds=value)
+        try:
+            return _now() + timedelta(seconds=value)
+        except OverflowError:
+            # more seconds than a timedelta / datetime can hold
+            return None
 
 
 def serialize_date_delta(value):
